@@ -795,6 +795,67 @@ def span_of(body, bb, stmt):
     return span_str(stmt["span"])
 
 
+def r4_7(ctx, R, otypes):
+    ctx.rule("R4.7", "who may number: the position of an item is fixed once, by the three numbering sites R4.1 checks (push_back / "
+                     "push_front / FromIterator) and carried by the wrapper's own poll; so (a) every order-wrapper construction "
+                     "in the crate takes a caller's future (a parameter) or is the wrapper's poll; (b) a stored `.index` is never "
+                     "written except by the re-base XOR inside the ordered poll_next; (c) the position counters change only by "
+                     "steps of exactly one, by the re-base XOR, or in the constructors' struct literals")
+    allc = set()
+    for path, w, h in otypes:
+        allc |= set(w)
+    builders = {(b.path, bb) for b, bb, e in wrapper_builders(ctx)}
+    n = 0
+    for b in ctx.facts.fn_bodies():
+        fl = ctx.flow(b)
+        is_poll_of_wrap = re.search(r"^<%s<.*> as futures_core::Future>::poll$" % re.escape(WRAP), b.path) is not None
+        is_ordered_poll = any(re.search(r"^<%s<.*> as futures_core::Stream>::poll_next$" % re.escape(p_), b.path) for p_, _, _ in otypes)
+        for bb in range(b.n):
+            if b.is_cleanup(bb):
+                continue
+            for s_ in b.stmts(bb):
+                if s_["k"] == "assign" and s_["rv"]["k"] == "aggregate" and s_["rv"].get("adt") == WRAP:
+                    n += 1
+                    ok = (b.path, bb) in builders or is_poll_of_wrap
+                    ctx.ob("R4.7", b, "(a) wrapper-built-from-a-pushed-future#%d" % sum(1 for o_ in ctx.obs if o_.rule == "R4.7" and o_.fn == b.path and o_.label.startswith("(a)")), ok, b.loc(bb),
+                           expr_str(fl.rvalue_expr(s_["rv"], bb))[:160])
+        # (b) stores to a wrapper's index
+        for (sbb, i, st) in fl.stores:
+            if i == "term" or b.is_cleanup(sbb):
+                continue
+            pe = fl.place_expr(st["place"])
+            last = st["place"]["p"][-1] if st["place"]["p"] else None
+            if pe[0] == "proj" and pe[2] and pe[2][-1] == ".index" and counter_of(ctx, b, pe, allc) is None:
+                # is it an index of the order wrapper?  (the field's owner type)
+                owner_is_wrap = False
+                ty = b.locals[st["place"]["l"]]
+                for e_ in st["place"]["p"][:-1]:
+                    if e_["k"] == "deref":
+                        for pre in ("&mut ", "&", "*mut ", "*const "):
+                            if ty.startswith(pre):
+                                ty = ty[len(pre):]
+                                break
+                    elif e_["k"] == "field":
+                        ty = e_.get("ty", "?")
+                owner_is_wrap = ty.startswith(WRAP + "<") or "index" in ty and False
+                xor = st["rv"]["k"] == "binop" and st["rv"]["op"] == "BitXor"
+                if owner_is_wrap or (st["place"]["ty"] == "usize" and "OrderWrapper" in repr(pe)):
+                    ctx.ob("R4.7", b, "(b) stored-index-only-rebased@%s" % _site_label(b, sbb) if b.term(sbb)["k"] == "call" else "(b) stored-index-only-rebased",
+                           xor and is_ordered_poll, b.loc(sbb), "store to %s" % expr_str(pe))
+        # (c) counter updates
+        adds, subs, other = counter_updates(ctx, b, fl, allc)
+        for sbb, ctr in other:
+            ctx.ob("R4.7", b, "(c) counter-stepped-by-one:%s" % ctr, False, b.loc(sbb), "position counter %s written with something else than +-1 / re-base" % ctr)
+        for x in direct_sites(b, RE_ADD_ASSIGN) + direct_sites(b, RE_SUB_ASSIGN):
+            ctr = counter_of(ctx, b, fl.operand_expr(x[1]["args"][0]), allc)
+            if ctr is None:
+                continue
+            amt = fl.operand_expr(x[1]["args"][1])
+            one = (amt[0] == "const" and amt[2] == "1") or (amt[0] == "agg" and amt[2] and amt[2][0][0] == "const" and amt[2][0][2] == "1")
+            ctx.ob("R4.7", b, "(c) counter-stepped-by-one:%s@%s" % (ctr, _site_label(b, x[0])), one, b.loc(x[0]), "step %s" % expr_str(amt))
+    ctx.floor("R4.7", "wrapper-constructions", n, 7)
+
+
 def r4_6(ctx, R, otypes):
     ctx.rule("R4.6", "adapters push back: functions outside the ordered collections' own impls never call push_front / "
                      "try_push_front; each ordered adapter's poll_next has exactly one push_back site, fed by the upstream item")
@@ -842,3 +903,4 @@ def run(ctx):
     r4_4(ctx, R)
     r4_5(ctx, R)
     r4_6(ctx, R, ot)
+    r4_7(ctx, R, ot)
